@@ -1,10 +1,20 @@
 //go:build go1.21
 
 // Package sync is a drop-in replacement for the subset of package sync used by
-// the instrumented ipfs-cluster files.  Blocking acquisitions first pass a
-// scheduling point; everything else delegates to the real primitives, so with
-// no scheduler installed the behaviour (including what the race detector sees)
-// is that of package sync.
+// the instrumented ipfs-cluster files.
+//
+//   - Blocking acquisitions first pass a scheduling point of the E1 controlled
+//     scheduler (a no-op when no scheduler is installed).
+//   - Mutex and RWMutex are built on channels: a goroutine waiting for one of
+//     them is *durably* blocked in the sense of testing/synctest, so a bubble's
+//     fake clock keeps advancing while a lock is held across a sleep or a
+//     timer wait (with package sync's mutexes such a bubble would hang for
+//     ever: real time would resolve the wait, fake time cannot).
+//     Semantics are those of package sync (writer-preferring RWMutex, no
+//     reentrancy); the race detector sees the same happens-before edges
+//     (unlock -> lock) through the channel and internal mutex operations.
+//
+// Everything else delegates to the real primitives.
 package sync
 
 import (
@@ -26,48 +36,169 @@ type (
 // NewCond is sync.NewCond.
 func NewCond(l Locker) *Cond { return realsync.NewCond(l) }
 
-// Mutex is an instrumented sync.Mutex.
-type Mutex struct{ m realsync.Mutex }
-
-func (m *Mutex) Lock()         { sched.Point(sched.OpLock, m, 1); m.m.Lock() }
-func (m *Mutex) Unlock()       { m.m.Unlock() }
-func (m *Mutex) TryLock() bool { return m.m.TryLock() }
-
-// Enabled implements sched.Res.
-func (m *Mutex) Enabled(sched.OpKind) bool {
-	if m.m.TryLock() {
-		m.m.Unlock()
-		return true
-	}
-	return false
+// RWMutex is an instrumented, durably blocking reader/writer lock.
+type RWMutex struct {
+	s       realsync.Mutex // guards the fields below; never held while blocking
+	writer  bool
+	readers int
+	wq      []chan struct{} // waiting writers, FIFO
+	rq      []chan struct{} // waiting readers
 }
 
-// RWMutex is an instrumented sync.RWMutex.
-type RWMutex struct{ m realsync.RWMutex }
-
-func (m *RWMutex) Lock()           { sched.Point(sched.OpLock, m, 1); m.m.Lock() }
-func (m *RWMutex) Unlock()         { m.m.Unlock() }
-func (m *RWMutex) RLock()          { sched.Point(sched.OpRLock, m, 1); m.m.RLock() }
-func (m *RWMutex) RUnlock()        { m.m.RUnlock() }
-func (m *RWMutex) TryLock() bool   { return m.m.TryLock() }
-func (m *RWMutex) TryRLock() bool  { return m.m.TryRLock() }
-func (m *RWMutex) RLocker() Locker { return m.m.RLocker() }
-
-// Enabled implements sched.Res.
-func (m *RWMutex) Enabled(k sched.OpKind) bool {
-	if k == sched.OpRLock {
-		if m.m.TryRLock() {
-			m.m.RUnlock()
-			return true
-		}
+func (m *RWMutex) tryLock() bool {
+	if m.writer || m.readers > 0 {
 		return false
 	}
-	if m.m.TryLock() {
-		m.m.Unlock()
-		return true
-	}
-	return false
+	m.writer = true
+	return true
 }
+
+func (m *RWMutex) tryRLock() bool {
+	if m.writer || len(m.wq) > 0 {
+		return false
+	}
+	m.readers++
+	return true
+}
+
+// Lock locks for writing.
+func (m *RWMutex) Lock() {
+	sched.Point(sched.OpLock, m, 1)
+	m.s.Lock()
+	if m.tryLock() {
+		m.s.Unlock()
+		return
+	}
+	ch := make(chan struct{})
+	m.wq = append(m.wq, ch)
+	m.s.Unlock()
+	<-ch // ownership is handed over by the releaser
+}
+
+// RLock locks for reading.
+func (m *RWMutex) RLock() {
+	sched.Point(sched.OpRLock, m, 1)
+	m.s.Lock()
+	if m.tryRLock() {
+		m.s.Unlock()
+		return
+	}
+	ch := make(chan struct{})
+	m.rq = append(m.rq, ch)
+	m.s.Unlock()
+	<-ch
+}
+
+// wake hands the lock over; called with m.s held and the lock free of writers.
+func (m *RWMutex) wake() {
+	if m.readers == 0 && len(m.wq) > 0 {
+		ch := m.wq[0]
+		m.wq = m.wq[1:]
+		m.writer = true
+		close(ch)
+		return
+	}
+	if len(m.wq) == 0 {
+		for _, ch := range m.rq {
+			m.readers++
+			close(ch)
+		}
+		m.rq = nil
+	}
+}
+
+// Unlock unlocks a write lock.
+func (m *RWMutex) Unlock() {
+	m.s.Lock()
+	if !m.writer {
+		m.s.Unlock()
+		panic("sync: Unlock of unlocked RWMutex")
+	}
+	m.writer = false
+	// readers that queued behind this writer go first when no writer waits;
+	// otherwise the next writer
+	if len(m.wq) == 0 {
+		m.wake()
+	} else if len(m.rq) > 0 {
+		// like package sync: readers blocked by the departing writer are
+		// admitted before the next writer
+		for _, ch := range m.rq {
+			m.readers++
+			close(ch)
+		}
+		m.rq = nil
+	} else {
+		m.wake()
+	}
+	m.s.Unlock()
+}
+
+// RUnlock unlocks a read lock.
+func (m *RWMutex) RUnlock() {
+	m.s.Lock()
+	if m.readers <= 0 {
+		m.s.Unlock()
+		panic("sync: RUnlock of unlocked RWMutex")
+	}
+	m.readers--
+	if m.readers == 0 {
+		m.wake()
+	}
+	m.s.Unlock()
+}
+
+// TryLock tries to lock for writing.
+func (m *RWMutex) TryLock() bool {
+	m.s.Lock()
+	defer m.s.Unlock()
+	return m.tryLock()
+}
+
+// TryRLock tries to lock for reading.
+func (m *RWMutex) TryRLock() bool {
+	m.s.Lock()
+	defer m.s.Unlock()
+	return m.tryRLock()
+}
+
+type rlocker RWMutex
+
+func (r *rlocker) Lock()   { (*RWMutex)(r).RLock() }
+func (r *rlocker) Unlock() { (*RWMutex)(r).RUnlock() }
+
+// RLocker returns a Locker for the read side.
+func (m *RWMutex) RLocker() Locker { return (*rlocker)(m) }
+
+// Enabled implements sched.Res: would the operation complete without blocking?
+func (m *RWMutex) Enabled(k sched.OpKind) bool {
+	m.s.Lock()
+	defer m.s.Unlock()
+	if k == sched.OpRLock {
+		return !m.writer && len(m.wq) == 0
+	}
+	return !m.writer && m.readers == 0
+}
+
+// Mutex is an instrumented, durably blocking mutual exclusion lock.
+type Mutex struct{ rw RWMutex }
+
+func (m *Mutex) Lock() {
+	sched.Point(sched.OpLock, m, 1)
+	m.rw.s.Lock()
+	if m.rw.tryLock() {
+		m.rw.s.Unlock()
+		return
+	}
+	ch := make(chan struct{})
+	m.rw.wq = append(m.rw.wq, ch)
+	m.rw.s.Unlock()
+	<-ch
+}
+func (m *Mutex) Unlock()       { m.rw.Unlock() }
+func (m *Mutex) TryLock() bool { return m.rw.TryLock() }
+
+// Enabled implements sched.Res.
+func (m *Mutex) Enabled(sched.OpKind) bool { return m.rw.Enabled(sched.OpLock) }
 
 // WaitGroup is an instrumented sync.WaitGroup.
 type WaitGroup struct {
